@@ -232,6 +232,10 @@ class Scanner:
                 b_, i_ = self.iter_alias[d_["decl"]]
                 return sp.Indexed(sp.IndexedBase(b_), *i_)
             return sp.Symbol("*" + A.show(inner), real=True)
+        if k == "CallExpr" and n.get("callee") == "std::distance" and len(n.get("args", [])) == 2:
+            pa, pb = self._iter_pos(n["args"][0]), self._iter_pos(n["args"][1])
+            if pa is not None and pb is not None and pa[0] == pb[0]:
+                return sp.expand(pb[1] - pa[1])
         if k == "CallExpr" and n.get("callee") in ("std::inner_product", "std::accumulate") and len(n.get("args", [])) in (3, 4):
             r = self._sum_of_algorithm(n)
             if r is not None:
@@ -478,6 +482,36 @@ class Scanner:
             self._elements_of_bulk(x)
         self._inline(x)
 
+    def _ite_chain(self, items):
+        """items: [(extra guards, value)] of the returns of a helper -> ite(c1, v1, ite(c2, v2, ...)) when the guards form a chain"""
+        if not items:
+            return None
+        if len(items) == 1:
+            return items[0][1] if not items[0][0] or True else None
+        # split on the first guard of the first item
+        g0 = items[0][0]
+        if not g0:
+            return None
+        c0, p0 = g0[0]
+        if not isinstance(c0, dict) or c0.get("k") in ("SwitchCase", "Catch"):
+            return None
+        yes, no = [], []
+        for g_, v_ in items:
+            if g_ and g_[0][0] is c0 or (g_ and isinstance(g_[0][0], dict) and A.show(A.strip(g_[0][0])) == A.show(A.strip(c0))):
+                (yes if g_[0][1] == p0 else no).append((g_[1:], v_))
+            elif g_ and guards_complementary(g_[0], (c0, p0)):
+                no.append((g_[1:], v_))
+            else:
+                return None
+        if not yes or not no:
+            return None
+        a = self._ite_chain(yes) if len(yes) > 1 else yes[0][1]
+        b = self._ite_chain(no) if len(no) > 1 else no[0][1]
+        if a is None or b is None:
+            return None
+        cs = sp.Symbol("(" + A.show(A.strip(c0)) + ")")
+        return sp.Function("ite")(cs, a, b) if p0 else sp.Function("ite")(cs, b, a)
+
     def _array_of(self, node):
         """pointer-valued argument -> (array name, offset) when it points into a named array: a, &a[e], a+e, a.data()+e"""
         pa = self._pointer_into(node)
@@ -542,6 +576,12 @@ class Scanner:
         """-> (name, params, body, arg nodes) of a helper this call can be replaced by, or None"""
         k = x["k"]
         if k == "CXXOperatorCallExpr" and x.get("op") == "()" and x.get("args"):
+            lam0 = A.strip(x["args"][0], casts=False)
+            while lam0.get("k") in ("MaterializeTemporaryExpr", "CXXBindTemporaryExpr", "ImplicitCastExpr", "CXXConstructExpr", "CXXFunctionalCastExpr", "ParenExpr") and \
+                    len(lam0.get("args", lam0.get("c", []))) == 1:
+                lam0 = A.strip((lam0.get("args") or lam0.get("c"))[0], casts=False)
+            if lam0.get("k") == "LambdaExpr" and lam0.get("body") is not None and lam0.get("params") is not None:
+                return ("lambda (called in place)", lam0["params"], lam0["body"], x["args"][1:], None)      # [&]{ ... }()
             d = A.declref(x["args"][0])
             if d is not None and d["decl"] in self.lambdas:
                 lam = self.lambdas[d["decl"]]
@@ -618,6 +658,19 @@ class Scanner:
         with_value = [r for r in rets if r[0].get("c")]
         if len(with_value) == 1 and len(rets) == 1:
             v = self._try(with_value[0][0]["c"][0])
+            if v is not None:
+                self.inline_value[x["id"]] = v
+        elif len(with_value) == len(rets) and len(rets) > 1 and all(len(r[2]) == len(self.loops) for r in rets):
+            # several returns selected by conditions (if/else chain or early returns): the value is the matching ite(...) chain
+            base = len(self.guards)
+            items = []
+            for r_, g_, l_ in rets:
+                v_ = self._try(r_["c"][0])
+                if v_ is None:
+                    items = None
+                    break
+                items.append((plain_guards(g_[base:]), v_))
+            v = self._ite_chain(items) if items else None
             if v is not None:
                 self.inline_value[x["id"]] = v
         merged = dict(saved_assigned)
@@ -927,6 +980,25 @@ class Scanner:
         if nm is None:
             return None
         return sp.Indexed(sp.IndexedBase(nm), K_), SIZE(sp.Symbol(nm, real=True))
+
+    def _iter_pos(self, node):
+        """iterator expression -> (container text, position): X.begin() is 0, X.end() is size(X), a loop iterator over X is its index"""
+        n = A.strip(node)
+        while n.get("k") in ("CXXConstructExpr", "MaterializeTemporaryExpr", "CXXBindTemporaryExpr", "CXXFunctionalCastExpr") and len(n.get("args", n.get("c", []))) == 1:
+            n = A.strip((n.get("args") or n.get("c"))[0])
+        d = A.declref(n)
+        if d is not None and d.get("decl") in self.iter_alias:
+            b_, i_ = self.iter_alias[d["decl"]]
+            if len(i_) == 1:
+                return b_, i_[0]
+            return None
+        b = self._container_elem(n, "begin")
+        if b is not None and len(b[0].indices) == 1:
+            return str(b[0].base), sp.Integer(0)
+        e = self._container_elem(n, "end")
+        if e is not None and len(e[0].indices) == 1:
+            return str(e[0].base), e[1]
+        return None
 
     def _sum_of_algorithm(self, n):
         a = n["args"]
